@@ -6,6 +6,7 @@ import (
 	"errors"
 	"fmt"
 	"net/http"
+	"strconv"
 	"strings"
 	"time"
 
@@ -36,6 +37,7 @@ type ChainCfg struct {
 	RouteEncPost int    `json:"post_route_encoding,omitempty"`                            // with ReuseBuilder: set on the builder after the GET route was built (0: left as it was)
 	RouteEncLate int    `json:"get_route_encoding_set_on_the_registered_route,omitempty"` // Route.EnableContentEncoding on the stored GET route after registration (0: not called)
 	Provider     string `json:"provider"`
+	RawProvider  bool   `json:"provider_installed_without_the_ledger,omitempty"`
 	WCap         int    `json:"wcap,omitempty"`
 	RCap         int    `json:"rcap,omitempty"`
 	Recover      int    `json:"recover"` // 0 off, 1 default handler, 2 custom handler
@@ -63,6 +65,21 @@ type ChainCfg struct {
 	Twin    bool    `json:"twin_route_other_representation,omitempty"`
 	RFT     []FSpec `json:"twin_route_filters,omitempty"`
 	Preempt int     `json:"preempt_permille"`
+	// Fill: a third service /fill with so many routes GET /r<i>/{id}, each with one route filter of its
+	// own: the API of a large application, where anything kept per route exists hundreds of times
+	Fill int `json:"filler_routes,omitempty"`
+	// OuterPrefix (nested entries): the handler mounted in the outer container is a plain net/http
+	// middleware around the inner container that writes so many bytes first (a banner, a BOM, padding)
+	OuterPrefix int `json:"outer_middleware_writes_prefix,omitempty"`
+}
+
+// fillIndex: the index of the filler route a target names ("fill:<i>").
+func fillIndex(target string) (int, bool) {
+	if !strings.HasPrefix(target, "fill:") {
+		return 0, false
+	}
+	i, err := strconv.Atoi(target[5:])
+	return i, err == nil
 }
 
 type ChainReq struct {
@@ -78,7 +95,7 @@ type ChainReq struct {
 	AddSvc      bool   `json:"add_service_afterwards,omitempty"`
 	WFail       int    `json:"client_gone_at_write,omitempty"` // k>0: the client's writer fails from underlying write #k-1 on
 	BodyGzip    bool   `json:"gzip_request_body,omitempty"`    // post target: the entity is sent gzip-coded and read with ReadEntity
-	PanicKind   int    `json:"panic_value_kind,omitempty"`     // 0 string, 1 error, 2 pointer to a struct implementing error, 3 struct with String, 4 runtime error (nil map)
+	PanicKind   int    `json:"panic_value_kind,omitempty"`     // 0 string, 1 error, 2 pointer to a struct implementing error, 3 struct with String, 4 runtime error (nil map), 5 struct of an uncomparable type
 	PanicInRead bool   `json:"panic_inside_entity_reader,omitempty"`
 	CancelAt    string `json:"context_cancelled_at,omitempty"` // "start" or a point of the chain: the client went away, the request's context is done from there on
 	EarlyHints  bool   `json:"handler_sends_103_early_hints_first,omitempty"`
@@ -207,6 +224,16 @@ type chainPanicVal struct{ text string }
 
 func (p chainPanicVal) String() string { return p.text }
 
+// chainPanicBag is a value of a type that cannot be compared (== on two of them panics at run time):
+// what a panic carries when code panics with a struct holding a slice or a map, e.g. a ServiceError.
+type chainPanicBag struct {
+	text   string
+	fields map[string]string
+	trail  []string
+}
+
+func (p chainPanicBag) String() string { return p.text }
+
 // panicText is what fmt.Sprint shows for the value the request panics with.
 func (r *ChainReq) panicText() string {
 	if r.PanicKind == 4 {
@@ -224,6 +251,8 @@ func (r *ChainReq) panicValue() interface{} {
 		return &chainPanicErr{text}
 	case 3:
 		return chainPanicVal{text}
+	case 5:
+		return chainPanicBag{text: text, fields: map[string]string{"at": r.PanicAt}, trail: []string{text}}
 	}
 	return text
 }
@@ -622,6 +651,14 @@ func (e *chainEnv) build(encOff bool) (c *restful.Container, outer *restful.Cont
 	rfs = cfg.RF2
 	ws2.Route(mk(ws2.GET("/data/{id}")))
 	c.Add(ws2)
+	if cfg.Fill > 0 {
+		ws3 := new(restful.WebService).Path("/fill").Produces("application/json")
+		for i := 0; i < cfg.Fill; i++ {
+			rfs = []FSpec{{Kind: "pass", tag: fmt.Sprintf("f%d", i)}}
+			ws3.Route(mk(ws3.GET(fmt.Sprintf("/r%d/{id}", i))))
+		}
+		c.Add(ws3)
+	}
 	c.Handle("/plain/", e.plainHandler("plain"))
 	c.HandleWithFilter("/plainf/", e.plainHandler("plainf"))
 	c.EnableContentEncoding(cfg.ContEnc && !encOff)
@@ -631,10 +668,18 @@ func (e *chainEnv) build(encOff bool) (c *restful.Container, outer *restful.Cont
 	if cfg.Entry == "Nested" || cfg.Entry == "NestedFilter" {
 		outer = restful.NewContainer()
 		outer.EnableContentEncoding(!encOff)
+		var mounted http.Handler = c
+		if cfg.OuterPrefix > 0 {
+			mounted = http.HandlerFunc(func(rw http.ResponseWriter, hr *http.Request) {
+				r, _ := e.res()
+				e.appWrite(rw, fbytes("outer", r.ID, cfg.OuterPrefix))
+				c.ServeHTTP(rw, hr)
+			})
+		}
 		if cfg.Entry == "Nested" {
-			outer.Handle("/", c)
+			outer.Handle("/", mounted)
 		} else {
-			outer.HandleWithFilter("/", c)
+			outer.HandleWithFilter("/", mounted)
 		}
 	}
 	return c, outer
@@ -679,6 +724,9 @@ func (r *ChainReq) httpReq(t *sim.Task) *http.Request {
 	case "plainf":
 		return NewReq("GET", "/plainf/x", hdr, nil, 0, r.ID)
 	}
+	if i, ok := fillIndex(r.Target); ok {
+		return NewReq("GET", fmt.Sprintf("/fill/r%d/tok%d", i, r.ID), hdr, nil, 0, r.ID)
+	}
 	panic("harness: unknown target " + r.Target)
 }
 
@@ -704,11 +752,19 @@ func (cfg *ChainCfg) filtersFor(target string) []FSpec {
 		if cfg.Entry == "Dispatch" { // Dispatch bypasses the mux: the router answers 404 inside the container filters
 			fs = append(fs, cfg.CF...)
 		}
+	default:
+		if i, ok := fillIndex(target); ok {
+			fs = append(fs, cfg.CF...)
+			fs = append(fs, FSpec{Kind: "pass", tag: fmt.Sprintf("f%d", i)})
+		}
 	}
 	return fs
 }
 
 func targetEvent(cfg *ChainCfg, target string) string {
+	if _, ok := fillIndex(target); ok {
+		return "handler"
+	}
 	switch target {
 	case "route", "post", "route2", "twin":
 		return "handler"
@@ -905,6 +961,9 @@ func genChainCfg(tp *sim.Tape, k chainKnobs) *ChainCfg {
 	tagFilters(cfg.RF, "r")
 	tagFilters(cfg.SF2, "t")
 	tagFilters(cfg.RF2, "q")
+	if strings.HasPrefix(cfg.Entry, "Nested") && tp.Chance(300) {
+		cfg.OuterPrefix = 1 + tp.G(40)
+	}
 	if k.warm && tp.Chance(300) && !strings.HasPrefix(cfg.Entry, "Nested") {
 		cfg.Warm = true
 		cfg.WarmCF = tp.G(len(cfg.CF) + 1)
@@ -922,7 +981,8 @@ func genChainCfg(tp *sim.Tape, k chainKnobs) *ChainCfg {
 
 // isRouted: the request reaches a route function (unless a filter stops it).
 func isRouted(target string) bool {
-	return target == "route" || target == "post" || target == "route2" || target == "twin"
+	_, fill := fillIndex(target)
+	return fill || target == "route" || target == "post" || target == "route2" || target == "twin"
 }
 
 var chainAEs = []string{"gzip", "deflate", "", "gzip, deflate", "deflate, gzip", "identity", "br", "gzip;q=0", "GZIP", "x-gzip, deflate;q=0.5"}
@@ -967,7 +1027,7 @@ func genChainReq(tp *sim.Tape, cfg *ChainCfg, k chainKnobs, id int) *ChainReq {
 		_, pts := cfg.model(r)
 		if len(pts) > 0 {
 			r.PanicAt = pts[tp.G(len(pts))]
-			r.PanicKind = tp.G(5)
+			r.PanicKind = tp.G(6)
 			r.PanicInRead = r.Target == "post" && r.PanicAt == "handler:before" && tp.Bool()
 		}
 	} else if k.cancels > 0 && tp.Chance(k.cancels) {
@@ -1023,6 +1083,11 @@ func installProvider(s *sim.Sim, cfg *ChainCfg) {
 		inner = restful.NewSyncPoolCompessors()
 	}
 	restful.SetCompressorProvider(&sim.LedgerProvider{Inner: inner, Sim: s})
+	if cfg.RawProvider && cfg.Provider != "lifo" {
+		// as it is, without the ledger: optional interfaces of the real provider stay visible to the library
+		restful.SetCompressorProvider(inner)
+		s.Counts["reach:provider-without-ledger"]++
+	}
 }
 
 func newChainRun(s *sim.Sim, cfg *ChainCfg, reqs []*ChainReq) *chainRun {
@@ -1142,6 +1207,22 @@ func (cr *chainRun) serve(t *sim.Task, r *ChainReq, variant int) {
 	if w.Fired > 0 && t != nil {
 		t.Count("fault-wfail")
 	}
+}
+
+// age serves the scenario's aging requests sequentially on the live container, before any client starts.
+func (cr *chainRun) age(s *sim.Sim, sc *chainScen) {
+	aged := sc.agedReqs()
+	if len(aged) == 0 {
+		return
+	}
+	seqVariant = 0
+	for _, r := range aged {
+		seqReq = r.ID
+		cr.serve(nil, r, 0)
+	}
+	seqReq = 0
+	s.Counts["reach:aged-container"]++
+	s.Counts["aging-requests"] += len(aged)
 }
 
 // twin serves every request sequentially on the twin (encoding off everywhere): the bytes the
